@@ -27,6 +27,7 @@ pub(crate) fn storage_around(zalsa: Zalsa) -> Storage<VDb> {
 #[kani::unwind(5)]
 #[kani::stub(real_catch_unwind, stub_catch_unwind)]
 #[kani::stub(crate::sync::Condvar::wait, stub_condvar_wait)]
+#[kani::stub(crate::zalsa::Zalsa::event_cold, stub_event_cold)]
 fn c02_o8_synthetic_write_public_api() {
     let (mut zalsa, revs) = any_zalsa();
     let epoch: u8 = kani::any();
@@ -66,6 +67,7 @@ fn c02_o8_synthetic_write_public_api() {
 #[kani::should_panic]
 #[kani::stub(real_catch_unwind, stub_catch_unwind)]
 #[kani::stub(crate::sync::Condvar::wait, stub_condvar_wait)]
+#[kani::stub(crate::zalsa::Zalsa::event_cold, stub_event_cold)]
 fn c02_o8_never_change_synthetic_write_panics() {
     let (zalsa, _) = any_zalsa();
     let mut db = VDb::verif_new(storage_around(zalsa));
@@ -83,6 +85,7 @@ fn c02_o8_never_change_synthetic_write_panics() {
 #[kani::unwind(5)]
 #[kani::stub(real_catch_unwind, stub_catch_unwind)]
 #[kani::stub(crate::sync::Condvar::wait, stub_condvar_wait)]
+#[kani::stub(crate::zalsa::Zalsa::event_cold, stub_event_cold)]
 fn c20_o5_write_acquisition_advances_epoch() {
     let (mut zalsa, revs) = any_zalsa();
     let epoch: u8 = kani::any();
@@ -124,4 +127,72 @@ fn c04_o1_report_untracked_read_public_api() {
     }
     std::mem::forget(guard);
     std::mem::forget(db);
+}
+
+// ---- cost probes (prop=NONE) ----
+
+// @verif prop=NONE obl=X tier=thorough bounds="probe"
+#[kani::proof]
+#[kani::unwind(5)]
+#[kani::stub(real_catch_unwind, stub_catch_unwind)]
+fn x_st_flag_guard() {
+    let (zalsa, _) = any_zalsa();
+    let st = storage_around(zalsa);
+    {
+        let _g = CancellationFlagGuard::new(&st.handle.zalsa_impl);
+        assert!(st.handle.zalsa_impl.runtime().load_cancellation_flag());
+    }
+    assert!(!st.handle.zalsa_impl.runtime().load_cancellation_flag());
+    std::mem::forget(st);
+}
+
+// @verif prop=NONE obl=X tier=thorough bounds="probe"
+#[kani::proof]
+#[kani::unwind(5)]
+#[kani::stub(real_catch_unwind, stub_catch_unwind)]
+fn x_st_lock_clones() {
+    let (zalsa, _) = any_zalsa();
+    let st = storage_around(zalsa);
+    {
+        let clones = st.handle.coordinate.clones.lock();
+        assert!(*clones == 1);
+    }
+    std::mem::forget(st);
+}
+
+// @verif prop=NONE obl=X tier=thorough bounds="probe"
+#[kani::proof]
+#[kani::unwind(5)]
+#[kani::stub(real_catch_unwind, stub_catch_unwind)]
+fn x_st_arc_get_mut() {
+    let (zalsa, _) = any_zalsa();
+    let mut st = storage_around(zalsa);
+    let z = Arc::get_mut(&mut st.handle.zalsa_impl).unwrap();
+    let _ = z.runtime_mut().bump_cancellation_count();
+    std::mem::forget(st);
+}
+
+// @verif prop=NONE obl=X tier=thorough bounds="probe"
+#[kani::proof]
+#[kani::unwind(5)]
+#[kani::stub(real_catch_unwind, stub_catch_unwind)]
+fn x_st_query_stack_check() {
+    let (zalsa, _) = any_zalsa();
+    let st = storage_around(zalsa);
+    assert!(st.zalsa_local.try_with_query_stack(|stack| stack.is_empty()) == Some(true));
+    std::mem::forget(st);
+}
+
+// @verif prop=NONE obl=X tier=thorough bounds="probe"
+#[kani::proof]
+#[kani::unwind(5)]
+#[kani::stub(real_catch_unwind, stub_catch_unwind)]
+#[kani::stub(crate::sync::Condvar::wait, stub_condvar_wait)]
+#[kani::stub(crate::zalsa::Zalsa::event_cold, stub_event_cold)]
+fn x_st_cancel_others() {
+    let (zalsa, _) = any_zalsa();
+    let mut st = storage_around(zalsa);
+    let z = st.cancel_others();
+    assert!(!z.runtime().load_cancellation_flag());
+    std::mem::forget(st);
 }
